@@ -284,7 +284,11 @@ impl TcpStream {
     pub fn ttl(&self) -> io::Result<u32> {
         Ok(64)
     }
-    pub fn set_linger(&self, _dur: Option<std::time::Duration>) -> io::Result<()> {
+    pub fn set_linger(&self, dur: Option<std::time::Duration>) -> io::Result<()> {
+        // only the abortive form changes what the peer observes; the kernel lane (AF_UNIX) has no equivalent
+        if let Inner::Mem(m) = &self.inner {
+            sim::tcp::set_linger0(m.conn, m.end, dur == Some(std::time::Duration::ZERO));
+        }
         Ok(())
     }
     pub fn linger(&self) -> io::Result<Option<std::time::Duration>> {
